@@ -48,7 +48,7 @@ FAMILIES = {
         "coq_modules": ["Feed"],
         "in_type": "list (string * N)", "obs_type": "ckpt_runs",
         "corr": "chk_ckpt_runs", "chk": "chk_ckpt_runs", "model": "(fun x : list (string * N) => x)",
-        "n": {"quick": 24, "thorough": 600},
+        "n": {"quick": 80, "thorough": 600},
         "shard": 4, "procs": 4,
     },
     "life": {
